@@ -47,6 +47,12 @@ class C02(Prop):
         res = Result()
         res.evals = 0
         ok, why = GW.wellformed(case)
+        if not ok and why.startswith("check_schema-raises:"):
+            # the metaschemas are schemas with references of their own ("#", "#/definitions/..."): applying one
+            # to a well-typed document must not fail for a reason of its own
+            res.fail(("metaschema-cannot-be-applied", why.split(":")[1]),
+                     "check_schema of a world document raised %s" % why.split(":")[1])
+            return res
         if not ok:
             res.excluded = why
             return res
